@@ -4,7 +4,7 @@
    correspondence check ties it to the code on every run. *)
 From Coq Require Import List Arith.
 Import ListNotations.
-From TarpcV Require Import PerKey PerKeyProofs PerKeyRace PerKeyRaceProofs.
+From TarpcV Require Import PerKey PerKeyProofs PerKeyRace PerKeyRaceProofs PerKeyRaceFlow.
 
 (* for every n >= 1 and every sequence of arrivals, closes, polls and listener end:
    the monitor (never more than n alive per key at a yield; a shed only with exactly n alive;
@@ -37,8 +37,8 @@ Proof. vm_compute. reflexivity. Qed.
 
 (* ---- concurrent channel drops (PerKeyRace.v): other threads drop TrackedChannels between the
    atomic actions of the listener task (read strong_count, Weak::upgrade, receive a notification,
-   examine the entry); every op list = every interleaving.  No harness: thread races are not
-   reproducible deterministically; assumed: strong_count()/upgrade() are each atomic, upgrade()
+   examine the entry); every op list = every interleaving.  Tied to the code by part `race`
+   (yield points of hook H5 between the atomic actions; Checks/C13rcheck.v); assumed: strong_count()/upgrade() are each atomic, upgrade()
    succeeds iff the count is > 0 at that instant, Tracker::drop runs exactly when the count reaches 0,
    dropped_keys is linearizable, only the listener task touches key_counts (Pin<&mut Self>). ---- *)
 Theorem C13_race_alive_le_n : forall n ops k, 1 <= n ->
@@ -78,6 +78,22 @@ Theorem C13_race_accept_after_read : forall env s k t,
   pc s1 = PcUpgrade k t /\ fst (snd (rstep s1 RListener)) = [OYield (next_cid (rb s1)) k].
 Proof. exact race_accept_after_read. Qed.
 
+(* control flow the `race` driver relies on when it turns the yield points that fired (hook H5) into
+   the number of listener actions between them; the correspondence also compares the program counter
+   after every action *)
+Theorem C13_race_pc_flow : forall s,
+  let s' := fst (lstep s) in
+  match pc s with
+  | PcIdle | PcLoop => (exists k t, pc s' = PcUpgrade k t) \/ (exists l, pc s' = PcClosed l)
+  | PcUpgrade _ _ => exists l, pc s' = PcClosed l
+  | PcClosed l => (exists k, pc s' = PcCheck l k) \/ at_top (pc s')
+  | PcCheck _ _ => at_top (pc s')
+  end.
+Proof. exact race_pc_flow. Qed.
+
+Theorem C13_race_env_keeps_pc : forall s o, o <> RListener -> pc (fst (rstep s o)) = pc s.
+Proof. exact race_env_keeps_pc. Qed.
+
 Print Assumptions C13_monitor.
 Print Assumptions C13_alive_le_n.
 Print Assumptions C13_accept_below_n.
@@ -88,3 +104,5 @@ Print Assumptions C13_race_shed_only_if_was_full.
 Print Assumptions C13_race_shed_at_report_refuted.
 Print Assumptions C13_race_accept_below_n.
 Print Assumptions C13_race_accept_after_read.
+Print Assumptions C13_race_pc_flow.
+Print Assumptions C13_race_env_keeps_pc.
